@@ -1007,6 +1007,28 @@ func verifExec(c *verifsim.Ctx, src *verifSource, sweep *verifSweepPoint) ([]ver
 	c.Logf("config %s, up to %d power losses, %d events", verifCfgNames[s.cfg], s.maxFaults, nev)
 	c.Count("config:" + verifCfgNames[s.cfg])
 
+	// undo of the last link-snap of a boot snap, the way snapstate issues
+	// it: BootWithoutTry, target = the revision it would go back to
+	undo := func() {
+		first := s.draw("type", 2)
+		for _, track := range []int{first, 1 - first} {
+			t := s.tr[track]
+			switch {
+			case t.tryOutstanding || len(t.trial) > 0:
+				// the tried revision was not promoted (not rebooted
+				// yet, or it failed): back to the known-good one
+				c.Count("probe:undo-before-promotion")
+				s.doSetNext(verifOp{track: track, target: t.good, noTry: true})
+				return
+			case t.prevGood != "":
+				// the new revision already booted and was marked
+				c.Count("probe:undo-after-promotion")
+				s.doSetNext(verifOp{track: track, target: t.prevGood, noTry: true})
+				return
+			}
+		}
+		c.Logf("snapd: nothing to undo")
+	}
 	for i := 0; i < nev && !s.dead; i++ {
 		switch ev := s.draw("event", 10); ev {
 		case 0, 1:
@@ -1058,22 +1080,7 @@ func verifExec(c *verifsim.Ctx, src *verifSource, sweep *verifSweepPoint) ([]ver
 			}
 			s.doSetNext(verifOp{track: track, target: target})
 		case 6, 7:
-			// undo of the last link-snap, the way snapstate issues it
-			track := s.draw("type", 2)
-			t := s.tr[track]
-			switch {
-			case t.tryOutstanding || len(t.trial) > 0:
-				// the tried revision was not promoted (not rebooted
-				// yet, or it failed): back to the known-good one
-				c.Count("probe:undo-before-promotion")
-				s.doSetNext(verifOp{track: track, target: t.good, noTry: true})
-			case t.prevGood != "":
-				// the new revision already booted and was marked
-				c.Count("probe:undo-after-promotion")
-				s.doSetNext(verifOp{track: track, target: t.prevGood, noTry: true})
-			default:
-				c.Logf("snapd: nothing to undo for %s", t.label)
-			}
+			undo()
 		case 8:
 			// snapd restarts without a reboot and marks the boot again
 			c.Logf("snapd restarts: MarkBootSuccessful again | %s%s", s.blState(), s.modeenvState())
@@ -1099,7 +1106,7 @@ func verifExec(c *verifsim.Ctx, src *verifSource, sweep *verifSweepPoint) ([]ver
 				c.Count("probe:interrupted-op-retried")
 				s.doSetNext(op)
 			} else {
-				s.doBoot("reboot / power loss while idle", false)
+				undo()
 			}
 		}
 	}
